@@ -137,13 +137,27 @@ theorem RespSpec.candidates_clear (s : Svc) (q : Question) :
 
 theorem RespSpec.preds_clear (svcs : List Svc) (qs : List Question) (known : List Rec) :
     (∀ a, RespSpec.soundAnswer lower ettl (svcs.map Svc.clearMemo) qs known a = RespSpec.soundAnswer lower ettl svcs qs known a)
-    ∧ (∀ off, RespSpec.complete lower ettl (svcs.map Svc.clearMemo) qs known off = RespSpec.complete lower ettl svcs qs known off)
+    ∧ (∀ off, RespSpec.completePerService lower ettl (svcs.map Svc.clearMemo) qs known off = RespSpec.completePerService lower ettl svcs qs known off)
     ∧ (∀ p, RespSpec.additionalsOk lower ettl (svcs.map Svc.clearMemo) p = RespSpec.additionalsOk lower ettl svcs p) := by
   refine ⟨fun a => ?_, fun off => ?_, fun p => ?_⟩
   · simp only [RespSpec.soundAnswer, List.any_map, Function.comp_def, RespSpec.candidates_clear]
-  · simp only [RespSpec.complete, List.all_map, Function.comp_def, RespSpec.candidates_clear]
+  · simp only [RespSpec.completePerService, List.all_map, Function.comp_def, RespSpec.candidates_clear]
   · simp only [RespSpec.additionalsOk, List.any_map, Function.comp_def]
     rfl
+
+
+/-- the per-service completeness the implementation has implies the property's (which owes fewer NSECs) -/
+theorem RespSpec.complete_of_perService (svcs : List Svc) (qs : List Question) (known off : List Rec)
+    (h : RespSpec.completePerService lower ettl svcs qs known off = true) : RespSpec.complete lower ettl svcs qs known off = true := by
+  unfold RespSpec.completePerService at h
+  unfold RespSpec.complete
+  simp only [List.all_eq_true] at h ⊢
+  intro q hq s hs r hr
+  have h1 := h q hq s hs r hr
+  rw [Bool.or_eq_true] at h1 ⊢
+  rcases h1 with h2 | h2
+  · left; rw [Bool.or_eq_true]; right; exact h2
+  · right; exact h2
 
 end
 end Zc
